@@ -77,6 +77,19 @@ def check_struct(stats, rnd, g):
         stats.fail(dict(kind="timeout" if r.timeout else "exception", **r.exc_sig), case, r.exc_text)
         return
     got, other = cycle_groups(r.errors)
+    if "Foo." in text.split("struct Foo:")[1]:
+        # some links of a cycle are type-qualified references (Foo.f3).  Such a reference must also name
+        # a constant, and a member of a cycle never is one, so the module is rejected either way; which of
+        # the two diagnostics comes first is not part of the property.  Compared: rejected, terminated
+        # without an exception, and no cycle reported that is not one.
+        stats.classes["cycle-with-type-qualified-links"] += 1
+        if not r.errors:
+            stats.fail({"kind": "cycle-missed", "realisation": "struct-qualified"}, case, "module with cycles %s accepted" % sorted(sorted(c) for c in want))
+        elif not all(any(grp <= w_ for w_ in want) for grp in got):
+            stats.fail({"kind": "spurious-cycle", "realisation": "struct-qualified"}, case, "expected cycles %s, reported %s" % (sorted(sorted(c) for c in want), sorted(sorted(c) for c in got)))
+        elif set(got) != want:
+            stats.classes["qualified-cycle-reported-as:" + other[0][:45] if other else "qualified-cycle-partly-reported"] += 1
+        return
     if set(got) != want or len(got) != len(set(got)):
         if want and not got:
             k = "cycle-missed"
@@ -160,8 +173,40 @@ def check_imports(stats, rnd, g):
         stats.fail({"kind": "acyclic-imports-rejected"}, case, other[0])
 
 
+# cycles whose links are of different kinds: plain field references, type-qualified references to
+# virtual fields, enum values; (text, names that must be reported as one cycle)
+MIXED_CYCLES = [
+    ("struct Foo:\n  0 [+1]  UInt  a\n  let x = Foo.y\n  let y = x\n", {"x", "y"}),
+    ("struct Foo:\n  let x = Foo.y + 1\n  let y = Foo.z\n  let z = x\n", {"x", "y", "z"}),
+    ("enum Kind:\n  SMALL = Foo.limit\n  BIG = 9\nstruct Foo:\n  let limit = scaled\n  let scaled = Kind.SMALL + 0\n", {"SMALL", "limit", "scaled"}),
+    ("struct Foo:\n  let p = Bar.r\n  let pp = p\nstruct Bar:\n  let r = rr\n  let rr = Foo.pp\n", {"p", "pp", "r", "rr"}),
+    ("enum Ee:\n  AA = Ff.XX\nenum Ff:\n  XX = Foo.k\nstruct Foo:\n  let k = kk\n  let kk = Ee.AA + 1\n", {"AA", "XX", "k", "kk"}),
+]
+
+
+def check_mixed(stats):
+    for text, want in MIXED_CYCLES:
+        case = {"kind": "mixed-literal", "text": text}
+        r = emb.compile_files({"m.emb": text}, limit_s=LIMIT, gen_header=False)
+        stats.case(text, True, ["mixed-kind-cycle", "cyclic"], sample=None)
+        if r.exc:
+            stats.fail(dict(kind="timeout" if r.timeout else "exception", **r.exc_sig), case, r.exc_text)
+            continue
+        got, other = cycle_groups(r.errors)
+        reported = set()
+        for grp in got:
+            # cycle members are listed by their full names; keep the last component
+            reported |= set(re.split(r"[.\s]", x.strip())[-1] for x in grp)
+        if not got:
+            stats.fail({"kind": "cycle-missed", "realisation": "mixed-literal"}, case, "a cycle through %s is not reported (other errors: %s)" % (sorted(want), other[:3]))
+        elif not want <= reported:
+            stats.fail({"kind": "cycle-sets-differ", "realisation": "mixed-literal"}, case, "cycle through %s reported as %s" % (sorted(want), sorted(sorted(g_) for g_ in got)))
+
+
 def shard(idx, seed, n):
     stats = vlib.Stats()
+    if idx == 0:
+        check_mixed(stats)
 
     def body(case_seed):
         rnd = random.Random(case_seed)
